@@ -60,6 +60,7 @@ SCHED = {
 }
 
 LEAF_TIE = True
+NODESET_TIE = True
 
 ASSUME_SCHED = [
     "sequentially consistent interleavings only (one thread runs between two announced accesses); weak-memory reorderings are not explored",
@@ -514,6 +515,54 @@ def leaf_tie(tier, seed):
     return cov, fails
 
 
+def nodeset_tie(tier, seed):
+    """correspondence of Proto/NodeSet (the model of the C04/C06 theorems): the model enumerates
+    every interleaving of a small scan-vs-inserts scenario (incl. leaf splits) and prints the set
+    of key lists the scan can return; every list the real code returns must be one of them"""
+    binary, err = vlib.build_harness("scheddrv", schedeng.SCHED_DEFINES)
+    if binary is None:
+        return {"nodeset_scenarios": 0}, [{"kind": "build", "detail": err, "found": False}]
+    nsc = 16 if tier == "quick" else 120
+    runs = 100 if tier == "quick" else 400
+
+    def one(sd):
+        text, model = schedeng.make_nodeset_scenario(sd)
+        m = subprocess.run([vlib.YAKMODEL, "nodeset"], input="\n".join(model) + "\n", capture_output=True, text=True)
+        outs = [l for l in m.stdout.splitlines() if l.startswith("NOUT")]
+        if m.returncode != 0 or len(outs) != 1:
+            return {"text": text, "error": "yakmodel nodeset: " + (m.stdout + m.stderr)[-300:], "model": set(), "seen": {}, "lines": model}
+        allowed = set(outs[0][5:].split("|"))
+        seen, bad = {}, None
+        for pol in ("pct", "random"):
+            rc, out, err2 = schedeng.run_workload(binary, text, runs, sd * 100 + 5, pol)
+            for r in hist.parse(out):
+                for h in r.h:
+                    if h["op"][0] != "scan" or not h["res"].startswith("OK"):
+                        continue
+                    w = h["res"].split()
+                    keys = [bytes.fromhex(kv.partition("=")[0]) for kv in w[2:2 + int(w[1])]]
+                    enc = ",".join(str(int(k[1:])) for k in keys) or "-"
+                    seen[enc] = seen.get(enc, 0) + 1
+                    if enc not in allowed and bad is None:
+                        bad = (enc, r.sched)
+        return {"text": text, "model": allowed, "seen": seen, "bad": bad, "lines": model}
+
+    results = vlib.pmap(one, [seed * 1000 + i for i in range(nsc)])
+    fails = []
+    for r in results:
+        if r.get("error"):
+            fails.append({"kind": "nodesettie", "detail": r["error"], "found": False, "workload": r["text"]})
+        elif r.get("bad"):
+            enc, sch = r["bad"]
+            fails.append({"kind": "nodesettie", "found": False, "workload": r["text"], "schedule": sch,
+                          "detail": "the real scan returned [%s], which no interleaving of the NodeSet model produces (model has %d outcomes); scenario: %s" % (enc, len(r["model"]), r["lines"])})
+    cov = {"nodeset_scenarios": len(results), "nodeset_runs": sum(sum(r["seen"].values()) for r in results),
+           "nodeset_model_outcomes": sum(len(r["model"]) for r in results),
+           "nodeset_model_outcomes_observed_on_impl": sum(len(set(r["seen"]) & r["model"]) for r in results),
+           "nodeset_sample": (results[0]["lines"] if results else [])}
+    return cov, fails
+
+
 def absorb_tie(tier, seed):
     """correspondence of Proto/Absorb (the model of the D13 repair): for each scenario the Lean model
     enumerates the scan results possible under every interleaving of its events; every result the
@@ -570,6 +619,10 @@ def check_sched(prop, tier, seed, replay_path=None):
     cov, fails = sched_run(prop, tier, seed, replay_path)
     if prop == "C04" and not replay_path:
         cov2, fails2 = absorb_tie(tier, seed)
+        cov.update(cov2)
+        fails = fails + fails2
+    if prop == "C06" and not replay_path and NODESET_TIE:
+        cov2, fails2 = nodeset_tie(tier, seed)
         cov.update(cov2)
         fails = fails + fails2
     if prop == "C01" and not replay_path and LEAF_TIE:
